@@ -81,7 +81,28 @@ def word_eq(kind_a, a, kind_b, b, equal_nan, approx=False):
 def array_equal(interp, a, b, equal_nan=False, approx=False):
     ctx = interp.ctx
     close_axioms(ctx)
+    from .loops import MixedElem
+    if isinstance(a, MixedElem) or isinstance(b, MixedElem):
+        # optional cells of an object array (None or an array): array(None) has shape (), so None equals only None;
+        # with equal_nan=True numpy calls isnan on both sides once the shapes agree: TypeError for None against None
+        if approx:
+            raise OutOfReach("allclose of optional cells")
+        from .symlayout import opt_parts
+        pa, xa = opt_parts(a)
+        pb, xb = opt_parts(b)
+        none_a = Not(pa) if xa is not None else True
+        none_b = Not(pb) if xb is not None else True
+        both_none = And(none_a, none_b)
+        if equal_nan and not ctx.entails(Not(zbool(both_none))):
+            if ctx.entails(zbool(both_none)):
+                interp.raise_("TypeError", "ufunc 'isnan' not supported for the input types")
+            raise OutOfReach("np.array_equal(None, None, equal_nan=True) raises TypeError: the cells may both be empty here")
+        if xa is None or xb is None:
+            return both_none
+        return Or(both_none, And(pa, pb, array_equal(interp, xa, xb, equal_nan=equal_nan)))
     if a is None or b is None:
+        if a is None and b is None and equal_nan:
+            interp.raise_("TypeError", "ufunc 'isnan' not supported for the input types")
         return a is None and b is None
     sa, ga, ka = as_array(interp, a)
     sb, gb, kb = as_array(interp, b)
